@@ -270,4 +270,33 @@ ExpectFrom(L, s, t, skip) ==
     ELSE IF skip /\ t # "NEWLINE" /\ c.res.t = "NEWLINE" THEN ExpectFrom(L, c.s, t, skip)
     ELSE IF c.res.t # t THEN CR3(c.s, NoTok, [id |-> "expect/" \o t \o "/" \o c.res.t, arg |-> 0, l |-> c.s.l])
     ELSE c
+
+\* skipping_newlines(): a generator; n items are taken from it.  It ends (STOP) at EOF.
+StopTok == Tok("STOP", <<>>)
+CR4(s, out, err) == [s |-> s, out |-> out, err |-> err]
+CallerErr(s) == [id |-> "error", arg |-> 0, l |-> s.l]
+RECURSIVE NextNonNl(_, _)
+NextNonNl(L, s) == LET c == Call(L, s) IN
+    IF c.err # NoErrL THEN c ELSE IF c.res.t = "NEWLINE" THEN NextNonNl(L, c.s) ELSE c
+RECURSIVE SkipNlFrom(_, _, _, _)
+SkipNlFrom(L, s, n, acc) ==
+    IF n = 0 THEN CR4(s, acc, NoErrL)
+    ELSE LET c == NextNonNl(L, s) IN
+        IF c.err # NoErrL THEN CR4(c.s, acc, c.err)
+        ELSE IF c.res.t = "EOF" THEN CR4(c.s, Append(acc, StopTok), NoErrL)
+        ELSE SkipNlFrom(L, c.s, n - 1, Append(acc, c.res))
+\* block(name, consume_brace): a generator of the strings up to the closing brace; n items are taken
+RECURSIVE BlockItems(_, _, _, _)
+BlockItems(L, s, n, acc) ==
+    IF n = 0 THEN CR4(s, acc, NoErrL)
+    ELSE LET c == NextNonNl(L, s) IN
+        IF c.err # NoErrL THEN CR4(c.s, acc, c.err)
+        ELSE IF c.res.t = "BRACE_CLOSE" THEN CR4(c.s, Append(acc, StopTok), NoErrL)
+        ELSE IF c.res.t = "STRING" THEN BlockItems(L, c.s, n - 1, Append(acc, c.res))
+        ELSE CR4(c.s, acc, CallerErr(c.s))                          \* EOF (unclosed) or any other token
+BlockFrom(L, s, n, brace) ==
+    IF n = 0 THEN CR4(s, <<>>, NoErrL)                               \* the generator is never started
+    ELSE IF brace THEN LET e == ExpectFrom(L, s, "BRACE_OPEN", TRUE) IN
+        IF e.err # NoErrL THEN CR4(e.s, <<>>, e.err) ELSE BlockItems(L, e.s, n, <<>>)
+    ELSE BlockItems(L, s, n, <<>>)
 =============================================================================
